@@ -315,6 +315,23 @@ def run(case):
     if len(case["scripts"]) > 1:
         bump("multi_script_cases")
 
+    # generated kerning lookups and the glyphs they act on (the first sentence of the statement
+    # is symmetric: a language system that exposes any generated positioning feature must expose
+    # the generated kerning that acts on its script's glyphs as well)
+    kern = []
+    seen_k = set()
+    for ftag, lis in graph["features"]:
+        if ftag not in KERN_TAGS:
+            continue
+        for li in lis:
+            if li in seen_k or li not in lks:
+                continue
+            seen_k.add(li)
+            glyphs = set()
+            for role, gs in otl.gpos_lookup_glyphs(lks[li]).items():
+                if role != "contextual":
+                    glyphs |= gs
+            kern.append((li, glyphs - {"*"}))
     declared = declared_languagesystems(spec.get("features"))
     violations = []
     nontrivial = False
@@ -327,6 +344,28 @@ def run(case):
         systems += sorted(ent["langs"].items())
         for lang, idxs in systems:
             reach = otl.reachable(graph, idxs)
+            if any(t in reach for t in POS_TAGS + KERN_TAGS):
+                kreach = set()
+                for k in KERN_TAGS:
+                    kreach |= set(reach.get(k, ()))
+                lost = []
+                for li, glyphs in kern:
+                    members = sorted(g for g in glyphs if belongs(g, tag))
+                    if tag == "DFLT" and len(members) != len(glyphs):
+                        # a script-neutral glyph kerned against a letter is that script's text
+                        continue
+                    if members and li not in kreach:
+                        lost.append({"lookup": li, "glyphs_of_script": members[:6]})
+                if kern:
+                    bump("langsys_judged_for_kerning")
+                if lost:
+                    is_declared = lang.ljust(4) in declared.get(tag.ljust(4), set())
+                    violations.append({
+                        "mech": "langsys_lacks_generated_kerning",
+                        "detail": {"script": tag, "language": lang,
+                                   "declared_by_languagesystem": is_declared,
+                                   "reachable_features": {k: sorted(v) for k, v in sorted(reach.items())},
+                                   "missing": lost}})
             if not any(k in reach for k in KERN_TAGS):
                 bump("langsys_without_kerning")
                 continue
